@@ -60,7 +60,7 @@ func main() {
 	}
 	r.Assume("logical time = sum of VerifAge shifts; real elapsed time of a scenario is < 1 s until every age-based threshold has been crossed (otherwise the scenario is discarded as inconclusive)",
 		"bounds are envelopes: retransmissions >= 5 min apart and overdue only after 5 min + 2 tick gaps; removal bounds 30 s / 5 min / 1 h + 2 ticks")
-	r.Finish("scenarios", "scripts", "entries of four kinds (observed-unsubmitted, observed with a stored quorum VAA, unknown digest with 1..3 of 4 signatures, submitted) created at different logical times through the real handlers; tick scripts: regular 30 s ticks, irregular gaps 1 s..3 h, single stalls up to 1300 h, full request queue, one full 14400-retry run; distinct non-trivial = distinct (entry kinds, tick script) combinations", 50)
+	r.Finish("scenarios", "scripts", "entries of four kinds (observed-unsubmitted, observed with a stored quorum VAA, unknown digest with 1..3 of 4 signatures, submitted) created at different logical times through the real handlers; a guardian-set change between two ticks in a third of the scenarios (node dropped, set grown, strangers); tick scripts: regular 30 s ticks, irregular gaps 1 s..3 h, single stalls up to 1300 h, full request queue, one full 14400-retry run; distinct non-trivial = distinct (entry kinds, tick script) combinations", 50)
 }
 
 func runScenario(rng *rand.Rand, store *db.Database, serial uint64, long bool, sIdx int) {
@@ -202,6 +202,30 @@ func runScenario(rng *rand.Rand, store *db.Database, serial uint64, long bool, s
 			gaps = append(gaps, 1801)
 		}
 	}
+	// the guardian set may change between two ticks: the node is dropped from it, the set grows around it, or it is
+	// replaced by strangers. Entries keep the set they were observed under; the retry / expiry schedule does not depend
+	// on the current set.
+	rotAt, rotKind := -1, ""
+	if !long && rng.Intn(3) == 0 {
+		rotAt = rng.Intn(14)
+		rotKind = []string{"node-dropped", "node-dropped", "grown-around-node", "strangers-without-node", "single-other-guardian"}[rng.Intn(5)]
+		desc += "/rotation:" + rotKind
+	}
+	rotate := func() {
+		g2 := &proc.GSet{Index: g.Index + 1}
+		switch rotKind {
+		case "node-dropped":
+			g2.Pool = []int{1, 2, 3}
+		case "grown-around-node":
+			g2.Pool = []int{1, 2, proc.NodeKey, 3, 4, 5, 6}
+		case "strangers-without-node":
+			g2.Pool = []int{11, 12, 13, 14, 15}
+		default:
+			g2.Pool = []int{2}
+		}
+		rig.P.VerifSetGuardianSet(g2.Common())
+		r.Count("rotations_between_ticks_"+rotKind, 1)
+	}
 	desc += "/" + script + fmt.Sprintf("/req%d", reqCap)
 	var maxGap int64
 	thresholdsPassed := false
@@ -223,6 +247,9 @@ func runScenario(rng *rand.Rand, store *db.Database, serial uint64, long bool, s
 	for ti, gsec := range gaps {
 		if gsec > maxGap {
 			maxGap = gsec
+		}
+		if ti == rotAt {
+			rotate()
 		}
 		age(gsec)
 		if fillReq {
